@@ -253,9 +253,8 @@ fn get_data_type(
                 })
             }
             NamedType(name) => {
-                if name.value == "int" {
-                    Some(DataType::Int)
-                } else if let Some(entry) = table.lookup(&name.value) {
+                // `int` is an ordinary (predefined) entry of the global table and can be hidden by a local name
+                if let Some(entry) = table.lookup(&name.value) {
                     if let Entry::Type(t) = &entry {
                         t.data_type.clone()
                     } else {
